@@ -4,6 +4,7 @@
 #include "../ref/refsolve.h"
 #include "searchlib.h"
 #include "ucirig.h"
+#include "ucisession.h"
 
 #include <malloc.h>
 
@@ -128,6 +129,7 @@ bool prop_C05(Tape& t, Report& rep)
 {
     br::init_engine();
     tune_malloc();
+    if (t.chance(1, 8)) return us::run(t, rep, us::F_C05);
     sl::Session S;
     if (t.chance(1, 3))
     {
@@ -291,8 +293,7 @@ bool prop_C05(Tape& t, Report& rep)
                             "bestmove " + bm + " is not legal in " + ref::to_fen(root.cur) + "\n session: " + history +
                                 "\n stop delivered after " + std::to_string(o.visits_at_stop) + " visits, iterations completed then: " +
                                 std::to_string(o.iterations_completed_at_stop) + "\n output:\n" + o.raw);
-        if (!subset.empty() && std::find(subset.begin(), subset.end(), bm) == subset.end())
-            return rep.fail("go:bestmove_outside_searchmoves", "bestmove " + bm + " is not one of the searchmoves\n session: " + history + "\n output:\n" + o.raw);
+        // (that the bestmove is one of the searchmoves is C09's statement and is checked there, not here)
         for (auto& il : o.infos)
         {
             std::string bad = sl::pv_illegal(root.cur, il.pv);
@@ -596,6 +597,7 @@ bool prop_C08(Tape& t, Report& rep)
 {
     br::init_engine();
     tune_malloc();
+    if (t.chance(1, 6)) return us::run(t, rep, us::F_C08);
     sl::Session S;
     std::string history;
     const int MAXD = g_tier ? 5 : 4;
@@ -894,6 +896,7 @@ bool prop_C09(Tape& t, Report& rep)
 {
     br::init_engine();
     tune_malloc();
+    if (t.chance(1, 10)) return us::run(t, rep, us::F_C09);
     if (t.chance(1, 20)) return c09_uci_sequence(t, rep);
     sl::Session S;
     int nsearch = 1 + int(t.choose(2));
